@@ -11,7 +11,7 @@ FACETS = {
     "C04": "VFK",
     "C05": "VRK",
     "C06": "TN",
-    "C07": "CSEVRGK",
+    "C07": "CSEVRGFK",
     "C08": "VRFK",
     "C13": "VRFK",
     "C10": "VRFK",
@@ -79,7 +79,7 @@ def select(prop):
 
 def cfg_relevant(prop, K, cfg):
     if prop == "C07":
-        return cfg.get("mode") in GUARDED
+        return cfg.get("mode") in GUARDED or "C07" in K.fprops
     return True
 
 
